@@ -68,8 +68,42 @@ Qed.
 
 Definition routes (rs : list rule) : list route := flat_map routes_of rs.
 
+Lemma routes_of_in r x : In x (routes_of r) -> rt_rule x = r /\ In (rt_path x) (d_paths (r_def r)).
+Proof.
+  unfold routes_of. rewrite in_map_iff. intros ([i e] & E & H). subst x. simpl. split; [reflexivity|].
+  apply in_combine_r in H. exact H.
+Qed.
+
 Lemma routes_of_rule r x : In x (routes_of r) -> rt_rule x = r.
-Proof. unfold routes_of. rewrite in_map_iff. intros (e & E & _). subst. reflexivity. Qed.
+Proof. intro H. apply routes_of_in in H. tauto. Qed.
+
+Lemma map_rt_path r : map rt_path (routes_of r) = d_paths (r_def r).
+Proof.
+  unfold routes_of. rewrite map_map. simpl.
+  generalize 0. induction (d_paths (r_def r)) as [|e l IH]; intro n; simpl; [reflexivity|].
+  f_equal. apply IH.
+Qed.
+
+Lemma routes_of_ex r e : In e (d_paths (r_def r)) -> exists x, In x (routes_of r) /\ rt_path x = e.
+Proof.
+  rewrite <- (map_rt_path r). rewrite in_map_iff. intros (x & E & H). exists x. tauto.
+Qed.
+
+Lemma route_eqb_eq a b : route_eqb a b = true <-> a = b.
+Proof.
+  unfold route_eqb. rewrite !andb_true_iff, rule_eqb_eq, Nat.eqb_eq, str_eqb_eq. destruct a, b; simpl. split.
+  - intros [[? ?] ?]. congruence.
+  - intro H. inversion H. tauto.
+Qed.
+
+Lemma del_matcher_self fx x : del_matcher fx (rt_rule x) x x = true.
+Proof. unfold del_matcher. destruct (fix_F4 fx); [apply route_eqb_eq; reflexivity | apply sameas_refl]. Qed.
+
+Lemma del_matcher_sameas fx r v x : rt_rule v = r -> del_matcher fx r v x = true -> sameas (rt_rule x) r = true.
+Proof.
+  unfold del_matcher. intros E H. destruct (fix_F4 fx); [|exact H].
+  apply route_eqb_eq in H. subst x. rewrite E. apply sameas_refl.
+Qed.
 
 Lemma in_routes x rs : In x (routes rs) <-> exists r, In r rs /\ In x (routes_of r).
 Proof. apply in_flat_map. Qed.
@@ -93,8 +127,6 @@ Qed.
 
 Notation add_routes := (add_routes db m_add1).
 Notation add_rules := (add_rules db m_add1).
-Notation del_routes := (del_routes db m_del1).
-Notation del_rules := (del_rules db m_del1).
 
 Lemma add_routes_app a : forall d b,
   add_routes d (a ++ b) = match add_routes d a with inl d' => add_routes d' b | inr e => inr e end.
@@ -152,11 +184,17 @@ Qed.
 
 (** ** removeRulesFrom *)
 
+Section Remove.
+Variable fx : fixes.
+Notation del_routes := (del_routes db (m_del1 fx)).
+Notation del_rules := (del_rules db (m_del1 fx)).
+Notation hit := (hit fx).
+
 Definition hit_rule (r : rule) (x : route) : bool := existsb (fun v => hit r v x) (routes_of r).
 Definition hits (rs : list rule) (x : route) : bool := existsb (fun r => hit_rule r x) rs.
 
 Lemma del_routes_spec r vs : forall d L, ReprV d L -> ReprF d ->
-  (forall v, In v vs -> In v L /\ rpat v <> None /\ sameas (rt_rule v) r = true) ->
+  (forall v, In v vs -> In v L /\ rpat v <> None /\ rt_rule v = r) ->
   NoDup (map rpat vs) ->
   exists d', del_routes d r vs = inl d' /\
              ReprV d' (filter (fun x => negb (existsb (fun v => hit r v x) vs)) L) /\ ReprF d'.
@@ -167,13 +205,13 @@ Proof.
   - destruct (H v (or_introl eq_refl)) as (HvL & HvP & HvS).
     destruct (rpat v) as [p|] eqn:EP; [|congruence].
     assert (Hhit : hit r v v = true).
-    { unfold hit. rewrite EP. rewrite (proj2 (has_pat_rpat p v) EP). exact HvS. }
-    destruct (del1_spec d L r v R F (ex_intro _ v (conj HvL Hhit))) as (d1 & E1 & R1 & F1).
+    { unfold ReprFacts.hit. rewrite EP. rewrite (proj2 (has_pat_rpat p v) EP). rewrite <- HvS. apply del_matcher_self. }
+    destruct (del1_spec fx d L r v R F (ex_intro _ v (conj HvL Hhit))) as (d1 & E1 & R1 & F1).
     rewrite E1. inversion ND as [|? ? Hnotin ND']; subst.
     destruct (IH d1 _ R1 F1) as (d' & E' & R' & F'); [|exact ND'|].
     + intros v' Hv'. destruct (H v' (or_intror Hv')) as (A & B & C). split; [|split; assumption].
       apply filter_In. split; [exact A|].
-      unfold hit. rewrite EP. destruct (has_pat p v') eqn:Hp; [|reflexivity].
+      unfold ReprFacts.hit. rewrite EP. destruct (has_pat p v') eqn:Hp; [|reflexivity].
       exfalso. apply Hnotin. apply in_map_iff. exists v'. split; [|exact Hv'].
       rewrite EP. apply has_pat_rpat. exact Hp.
     + exists d'. split; [exact E'|]. split; [|exact F'].
@@ -191,14 +229,15 @@ Proof.
   - exists d. split; [reflexivity|]. split; [|exact F]. rewrite filter_all_true; [exact R | reflexivity].
   - destruct (del_routes_spec r (routes_of r) d L R F) as (d1 & E1 & R1 & F1).
     + intros v Hv. destruct (H r v (or_introl eq_refl) Hv) as [A B]. split; [exact A|]. split; [exact B|].
-      rewrite (routes_of_rule _ _ Hv). apply sameas_refl.
+      apply (routes_of_rule _ _ Hv).
     + apply HP. left. reflexivity.
     + rewrite E1. inversion ND as [|? ? Hnotin ND']; subst.
       destruct (IH d1 _ R1 F1) as (d' & E' & R' & F'); [| |exact ND'|].
       * intros r' v' Hr' Hv'. destruct (H r' v' (or_intror Hr') Hv') as [A B]. split; [|exact B].
         apply filter_In. split; [exact A|].
         apply negb_true_iff. apply not_true_is_false. intro Hex. apply existsb_exists in Hex as (v & Hv & Hh).
-        unfold hit in Hh. destruct (rpat v); [|discriminate]. apply andb_true_iff in Hh as [_ Hs].
+        unfold ReprFacts.hit in Hh. destruct (rpat v); [|discriminate]. apply andb_true_iff in Hh as [_ Hs].
+        apply (del_matcher_sameas fx r v v' (routes_of_rule _ _ Hv)) in Hs.
         rewrite (routes_of_rule _ _ Hv') in Hs. apply sameas_key in Hs.
         apply Hnotin. apply in_map_iff. exists r'. split; [exact Hs | exact Hr'].
       * intros r' Hr'. apply HP. right. exact Hr'.
@@ -257,13 +296,16 @@ Proof.
     + unfold hits. apply existsb_exists. exists (rt_rule x). split; [apply filter_In; split; assumption|].
       unfold hit_rule. apply existsb_exists. exists x. split.
       * apply in_routes in Hx as (r & _ & Hx). rewrite (routes_of_rule _ _ Hx). exact Hx.
-      * unfold hit. destruct (rpat x) as [p|] eqn:Ex.
-        -- rewrite (proj2 (has_pat_rpat p x) Ex). apply sameas_refl.
+      * unfold ReprFacts.hit. destruct (rpat x) as [p|] eqn:Ex.
+        -- rewrite (proj2 (has_pat_rpat p x) Ex). apply del_matcher_self.
         -- exfalso. apply (k_valid _ I x Hx). exact Ex.
     + apply not_true_is_false. intro Hex. unfold hits in Hex. apply existsb_exists in Hex as (r & Hr' & Hh).
       apply filter_In in Hr' as [HrK HrP].
       unfold hit_rule in Hh. apply existsb_exists in Hh as (v & Hv & Hh).
-      unfold hit in Hh. destruct (rpat v); [|discriminate]. apply andb_true_iff in Hh as [_ Hs].
+      unfold ReprFacts.hit in Hh. destruct (rpat v); [|discriminate]. apply andb_true_iff in Hh as [_ Hs].
+      apply (del_matcher_sameas fx r v x (routes_of_rule _ _ Hv)) in Hs.
       apply sameas_key in Hs.
       rewrite (NoDup_key_eq K _ _ (k_keys _ I) Hr HrK Hs) in EP. congruence.
 Qed.
+
+End Remove.
